@@ -97,14 +97,14 @@ def run(tier, seed):
                 for req in range(9):
                     if nops == 2 and tier == 'quick' and req not in (0, 1, 2, 5, 7):
                         continue
-                    if req >= 5 and tier == 'quick' and (va, vb) not in ((0, 0), (0, 2), (3, 3)):
-                        continue
+                    if req >= 5 and tier == 'quick' and (va, vb) != (0, 0):
+                        continue        # these requests do not go through a.py / b.py
                     pre = 'nops == %d and va == %d and vb == %d and req == %d' % (nops, va, vb, req)
                     if nops == 1:
                         pre += ' and f2 == 0 and v2 == 0'
                     if tier == 'quick':
                         # the package module matters for the requests that reach it; the others keep it absent
-                        pre += (' and vc <= 0' if req in (5, 6, 8) else ' and vd == -1 and f1 <= 2 and f2 <= 2')
+                        pre += (' and vc <= 0 and f1 >= 2 and f2 >= 2' if req in (5, 6, 8) else ' and vd == -1 and f1 <= 2 and f2 <= 2')
                         pre += ' and warm == %d' % (req if nops == 1 else 0)
                         if nops == 2:
                             pre += ' and vc == 0'
